@@ -353,13 +353,22 @@ TREE_NAMES = [("t1", "t1"), ("T2", "T2"), ("con_50", "con 50"), ("'my tree'", "m
 TITLES = ["Taxa1", "Taxa2", "chars", "M1", "trees_A", "Tb", "Untitled"]
 
 
+MATRIX_PLANS = st.fixed_dictionaries({
+    "data_type": st.sampled_from(["dna", "dna", "dna", "protein", "standard", "standard", "rna", "continuous"]),
+    "nchar": st.integers(1, 64), "interleaved": st.booleans(), "wrap": st.integers(0, 2)})
+
+
 @st.composite
-def _nexus_matrix_block(draw, labels, label_texts, ntax_declared_before, fancy, max_chars, title, link):
-    """One CHARACTERS/DATA block over all of `labels`.  Returns (text, matrix content)."""
+def _nexus_matrix_block(draw, labels, label_texts, ntax_declared_before, fancy, max_chars, title, link, plan=None):
+    """One CHARACTERS/DATA block over all of `labels`.  Returns (text, matrix content).
+    plan: the layout decisions (see MATRIX_PLANS), drawn by the caller BEFORE the bulk of the document so that
+    Hypothesis explores them evenly also for blocks late in a long document."""
     ntax = len(labels)
-    data_type = draw(st.sampled_from(["dna", "dna", "dna", "protein", "standard", "standard", "rna", "continuous"]))
-    nchar = draw(st.integers(1, max_chars))
-    interleaved = data_type != "continuous" and nchar >= 2 and draw(st.booleans())
+    if plan is None:
+        plan = draw(MATRIX_PLANS)
+    data_type = plan["data_type"]
+    nchar = 1 + (plan["nchar"] - 1) % max_chars
+    interleaved = data_type != "continuous" and nchar >= 2 and plan["interleaved"]
     matchchar = data_type in ("dna", "protein") and ntax >= 2 and draw(st.integers(0, 3)) == 0
     rows, texts = draw(matrix_cells(data_type, ntax, nchar, multistate=data_type in ("dna", "standard") and fancy))
     kind = draw(st.sampled_from(["DATA", "CHARACTERS"])) if ntax_declared_before else "DATA"
@@ -430,7 +439,7 @@ def _nexus_matrix_block(draw, labels, label_texts, ntax_declared_before, fancy, 
     else:
         # sequential layouts: free (blanks / breaks anywhere) or wrapped (every row continued on further lines after
         # a fixed number of characters, as alignment programs write long sequences)
-        wrap = draw(st.integers(1, nchar - 1)) if nchar >= 2 and draw(st.integers(0, 2)) == 0 else None
+        wrap = draw(st.integers(1, nchar - 1)) if nchar >= 2 and plan["wrap"] == 0 else None
         for r in order:
             out += "    " + label_texts[r] + draw(st.sampled_from([" ", "  ", "\t", "\n      "]))
             if wrap:
@@ -554,6 +563,14 @@ def nexus_docs(draw, max_taxa=5, max_chars=8, max_trees=2, max_tree_blocks=3, fa
     sp = lambda: draw(_ws(fancy))
     kw = lambda w: draw(_kw(w, fancy))
     n_matrix = draw(st.sampled_from([0, 1, 1, 1, 2])) if n_matrices is None else n_matrices
+    plans = [draw(MATRIX_PLANS) for _ in range(n_matrix)]
+    if n_matrix > 1:
+        # one draw for the joint layout of all matrices: every combination (interleaved x wrapped, block by block)
+        # is equally likely, independent of how Hypothesis correlates repeated draws
+        code = draw(st.sampled_from(range(6 ** n_matrix)))
+        for plan in plans:
+            plan["interleaved"], plan["wrap"] = bool(code % 2), (code // 2) % 3
+            code //= 6
     n_tree_blocks = draw(st.integers(0 if n_matrix else 1, max_tree_blocks))
     taxa_block = draw(st.integers(0, 3)) > 0
     titled = fancy and draw(st.integers(0, 3)) == 0     # TITLE / LINK on every block
@@ -587,7 +604,7 @@ def nexus_docs(draw, max_taxa=5, max_chars=8, max_trees=2, max_tree_blocks=3, fa
             title = draw(st.sampled_from(TITLES[2:4])) + str(len(matrices)) if n_matrix > 1 or \
                 (titled and draw(st.booleans())) else None
             text, m = draw(_nexus_matrix_block(labels, label_texts, taxa_block or bool(matrices), fancy, max_chars,
-                                               title, link))
+                                               title, link, plans[len(matrices)]))
             out += text
             matrices.append(m)
             if draw(st.integers(0, 3)) == 0:
@@ -695,7 +712,10 @@ def documents(max_len=400, schemas=SCHEMAS, large=False):
     if "nexus" in schemas:
         parts.extend([nexus_docs(max_taxa=4 * k, max_chars=6 * k, max_trees=2 * k)] * 3)
         # several small matrices in one file (per-block FORMAT / DIMENSIONS state of the reader)
-        parts.extend([nexus_docs(max_taxa=3 * k, max_chars=4 * k, max_trees=1, max_tree_blocks=1, n_matrices=2)] * 2)
+        # (one copy in plain spelling, which keeps more of them under max_len)
+        parts.append(nexus_docs(max_taxa=3 * k, max_chars=4 * k, max_trees=1, max_tree_blocks=1, n_matrices=2))
+        parts.append(nexus_docs(max_taxa=3 * k, max_chars=4 * k, max_trees=1, max_tree_blocks=0, n_matrices=2,
+                                fancy=False))
     if "phylip" in schemas:
         parts.append(phylip_docs(max_taxa=4 * k, max_chars=8 * k))
     if "fasta" in schemas:
